@@ -19,7 +19,7 @@ PROPS = {
         "technique": "property-based testing: generated operation histories vs ground-truth prefix oracle (rapid, shrinking to JSON replay)",
         "assumptions": HIST_ASSUME,
         "parts": {
-            "hist": {"bin": "verifh", "run": "TestC01", "checks": {"quick": 400, "thorough": 48000}, "shards": {"quick": 4, "thorough": 16}},
+            "hist": {"bin": "verifh", "run": "TestC01", "checks": {"quick": 400, "thorough": 320000}, "shards": {"quick": 4, "thorough": 16}},
         },
     },
     "C09": {
@@ -30,8 +30,8 @@ PROPS = {
         "assumptions": HIST_ASSUME,
         "parts": {
             "cube": {"bin": "verifh", "run": "TestC09Cube", "kind": "plain", "shards": {"quick": 8, "thorough": 16}},
-            "rand": {"bin": "verifh", "run": "TestC09Rand", "checks": {"quick": 2000, "thorough": 200000}, "shards": {"quick": 2, "thorough": 16}},
-            "hist": {"bin": "verifh", "run": "TestC09Hist", "checks": {"quick": 300, "thorough": 32000}, "shards": {"quick": 2, "thorough": 16}},
+            "rand": {"bin": "verifh", "run": "TestC09Rand", "checks": {"quick": 2000, "thorough": 2000000}, "shards": {"quick": 2, "thorough": 16}},
+            "hist": {"bin": "verifh", "run": "TestC09Hist", "checks": {"quick": 300, "thorough": 240000}, "shards": {"quick": 2, "thorough": 16}},
         },
     },
     "C03": {
@@ -41,7 +41,7 @@ PROPS = {
         "technique": "property-based testing: generated histories + fault injection, before/after state-equality invariant (rapid)",
         "assumptions": HIST_ASSUME,
         "parts": {
-            "hist": {"bin": "verifh", "run": "TestC03", "checks": {"quick": 400, "thorough": 40000}, "shards": {"quick": 4, "thorough": 16}},
+            "hist": {"bin": "verifh", "run": "TestC03", "checks": {"quick": 400, "thorough": 320000}, "shards": {"quick": 4, "thorough": 16}},
         },
     },
     "C20": {
@@ -51,7 +51,7 @@ PROPS = {
         "technique": "property-based testing: generated histories, per-step counter-delta oracle (rapid)",
         "assumptions": HIST_ASSUME,
         "parts": {
-            "hist": {"bin": "verifh", "run": "TestC20", "checks": {"quick": 400, "thorough": 40000}, "shards": {"quick": 4, "thorough": 16}},
+            "hist": {"bin": "verifh", "run": "TestC20", "checks": {"quick": 400, "thorough": 320000}, "shards": {"quick": 4, "thorough": 16}},
         },
     },
     "C02": {
@@ -61,7 +61,7 @@ PROPS = {
         "technique": "property-based testing: mutation-based generated inputs x generated configurations, authenticity implication oracle (rapid)",
         "assumptions": HIST_ASSUME,
         "parts": {
-            "hist": {"bin": "verifh", "run": "TestC02", "checks": {"quick": 600, "thorough": 64000}, "shards": {"quick": 4, "thorough": 16}},
+            "hist": {"bin": "verifh", "run": "TestC02", "checks": {"quick": 600, "thorough": 400000}, "shards": {"quick": 4, "thorough": 16}},
         },
     },
     "C04": {
@@ -71,7 +71,7 @@ PROPS = {
         "technique": "property-based testing: generated histories and note shapes, independent signature-census oracle (rapid)",
         "assumptions": HIST_ASSUME,
         "parts": {
-            "hist": {"bin": "verifh", "run": "TestC04", "checks": {"quick": 500, "thorough": 48000}, "shards": {"quick": 4, "thorough": 16}},
+            "hist": {"bin": "verifh", "run": "TestC04", "checks": {"quick": 500, "thorough": 320000}, "shards": {"quick": 4, "thorough": 16}},
         },
     },
     "C08": {
@@ -81,9 +81,9 @@ PROPS = {
         "technique": "property-based testing: generated histories followed by a must-accept probe; exhaustive small size pairs (rapid + enumeration)",
         "assumptions": HIST_ASSUME,
         "parts": {
-            "hist": {"bin": "verifh", "run": "TestC08Hist", "checks": {"quick": 500, "thorough": 64000}, "shards": {"quick": 4, "thorough": 16}},
+            "hist": {"bin": "verifh", "run": "TestC08Hist", "checks": {"quick": 500, "thorough": 320000}, "shards": {"quick": 4, "thorough": 16}},
             "pairs": {"bin": "verifh", "run": "TestC08Pairs", "kind": "plain", "shards": {"quick": 2, "thorough": 8}},
-            "big": {"bin": "verifh", "run": "TestC08Big", "checks": {"quick": 300, "thorough": 40000}, "shards": {"quick": 1, "thorough": 8}},
+            "big": {"bin": "verifh", "run": "TestC08Big", "checks": {"quick": 300, "thorough": 200000}, "shards": {"quick": 1, "thorough": 16}},
             "known": {"bin": "verifh", "run": "TestC08Known", "kind": "plain"},
         },
     },
@@ -94,7 +94,7 @@ PROPS = {
         "technique": "property-based testing: generated histories with a read-after-every-step oracle (rapid)",
         "assumptions": HIST_ASSUME,
         "parts": {
-            "hist": {"bin": "verifh", "run": "TestC16", "checks": {"quick": 400, "thorough": 40000}, "shards": {"quick": 4, "thorough": 16}},
+            "hist": {"bin": "verifh", "run": "TestC16", "checks": {"quick": 400, "thorough": 320000}, "shards": {"quick": 4, "thorough": 16}},
         },
     },
     "C12": {
@@ -104,10 +104,10 @@ PROPS = {
         "technique": "property-based metamorphic testing (interleaved vs isolated histories) + generated configurations (rapid)",
         "assumptions": HIST_ASSUME,
         "parts": {
-            "iso": {"bin": "verifh", "run": "TestC12Iso", "checks": {"quick": 300, "thorough": 32000}, "shards": {"quick": 4, "thorough": 16}},
-            "id-static": {"bin": "omni", "run": "TestC12Static", "checks": {"quick": 2000, "thorough": 100000}, "shards": {"quick": 1, "thorough": 8}},
+            "iso": {"bin": "verifh", "run": "TestC12Iso", "checks": {"quick": 300, "thorough": 200000}, "shards": {"quick": 4, "thorough": 16}},
+            "id-static": {"bin": "omni", "run": "TestC12Static", "checks": {"quick": 2000, "thorough": 500000}, "shards": {"quick": 1, "thorough": 16}},
             "id-dup-main": {"bin": "omni", "run": "TestC12DupMain", "kind": "plain"},
-            "id-main": {"bin": "omni", "run": "TestC12ViaMain", "checks": {"quick": 3, "thorough": 96}, "shards": {"quick": 1, "thorough": 8}, "shrinktime": "90s"},
+            "id-main": {"bin": "omni", "run": "TestC12ViaMain", "checks": {"quick": 3, "thorough": 320}, "shards": {"quick": 1, "thorough": 16}, "shrinktime": "90s"},
         },
     },
     "C11": {
@@ -117,8 +117,8 @@ PROPS = {
         "technique": "property-based round-trip + differential testing against a reference parser (rapid; go native fuzzing in thorough)",
         "assumptions": ["reference parser written from c2sp.org/tlog-witness add-checkpoint body grammar"],
         "parts": {
-            "body": {"bin": "bastion", "run": "TestC11Body", "checks": {"quick": 6000, "thorough": 800000}, "shards": {"quick": 4, "thorough": 16}},
-            "proof": {"bin": "bastion", "run": "TestC11Proof", "checks": {"quick": 3000, "thorough": 400000}, "shards": {"quick": 2, "thorough": 16}},
+            "body": {"bin": "bastion", "run": "TestC11Body", "checks": {"quick": 6000, "thorough": 6000000}, "shards": {"quick": 4, "thorough": 16}},
+            "proof": {"bin": "bastion", "run": "TestC11Proof", "checks": {"quick": 3000, "thorough": 3000000}, "shards": {"quick": 2, "thorough": 16}},
             "known": {"bin": "bastion", "run": "TestC11Known", "kind": "plain"},
         },
     },
@@ -129,9 +129,9 @@ PROPS = {
         "technique": "property-based model-based testing of an HTTP handler (rapid histories vs reference model)",
         "assumptions": HIST_ASSUME,
         "parts": {
-            "seq": {"bin": "bastion", "run": "TestC10Seq", "checks": {"quick": 500, "thorough": 48000}, "shards": {"quick": 4, "thorough": 16}},
-            "e2e": {"bin": "bastion", "run": "TestC10E2E", "checks": {"quick": 40, "thorough": 4000}, "shards": {"quick": 1, "thorough": 8}},
-            "rate": {"bin": "bastion", "run": "TestC10Rate", "checks": {"quick": 150, "thorough": 4000}, "shards": {"quick": 1, "thorough": 4}},
+            "seq": {"bin": "bastion", "run": "TestC10Seq", "checks": {"quick": 500, "thorough": 320000}, "shards": {"quick": 4, "thorough": 16}},
+            "e2e": {"bin": "bastion", "run": "TestC10E2E", "checks": {"quick": 40, "thorough": 32000}, "shards": {"quick": 1, "thorough": 16}},
+            "rate": {"bin": "bastion", "run": "TestC10Rate", "checks": {"quick": 150, "thorough": 8000}, "shards": {"quick": 1, "thorough": 8}},
             "known": {"bin": "bastion", "run": "TestC10Known", "kind": "plain"},
         },
     },
@@ -146,7 +146,7 @@ PROPS = {
             "never": {"bin": "omni", "run": "TestC13Never", "kind": "plain"},
             "sizes": {"bin": "omni", "run": "TestC13Sizes", "kind": "plain"},
             "adapter": {"bin": "omni", "run": "TestC13Adapter", "kind": "plain"},
-            "real": {"bin": "omni", "run": "TestC13Real", "checks": {"quick": 2, "thorough": 12}, "shards": {"quick": 1, "thorough": 4}},
+            "real": {"bin": "omni", "run": "TestC13Real", "checks": {"quick": 2, "thorough": 64}, "shards": {"quick": 1, "thorough": 8}},
         },
     },
     "C15": {
@@ -156,7 +156,7 @@ PROPS = {
         "technique": "property-based testing with recording stubs (rapid)",
         "assumptions": HIST_ASSUME[:1],
         "parts": {
-            "dist": {"bin": "verifh", "run": "TestC15", "checks": {"quick": 3000, "thorough": 400000}, "shards": {"quick": 4, "thorough": 16}},
+            "dist": {"bin": "verifh", "run": "TestC15", "checks": {"quick": 3000, "thorough": 1200000}, "shards": {"quick": 4, "thorough": 16}},
         },
     },
     "C18": {
@@ -166,10 +166,10 @@ PROPS = {
         "technique": "property-based differential testing against the reference tlog implementation; exhaustive small size pairs",
         "assumptions": HIST_ASSUME,
         "parts": {
-            "paths": {"bin": "verifh", "run": "TestC18Paths", "checks": {"quick": 5000, "thorough": 300000}, "shards": {"quick": 1, "thorough": 8}},
+            "paths": {"bin": "verifh", "run": "TestC18Paths", "checks": {"quick": 5000, "thorough": 1000000}, "shards": {"quick": 1, "thorough": 16}},
             "pairs": {"bin": "verifh", "run": "TestC18Pairs", "kind": "plain", "shards": {"quick": 4, "thorough": 16}},
-            "cycles": {"bin": "verifh", "run": "TestC18Cycles", "checks": {"quick": 40, "thorough": 4000}, "shards": {"quick": 2, "thorough": 16}},
-            "big": {"bin": "verifh", "run": "TestC18Big", "checks": {"quick": 300, "thorough": 20000}, "shards": {"quick": 2, "thorough": 16}},
+            "cycles": {"bin": "verifh", "run": "TestC18Cycles", "checks": {"quick": 40, "thorough": 16000}, "shards": {"quick": 2, "thorough": 16}},
+            "big": {"bin": "verifh", "run": "TestC18Big", "checks": {"quick": 300, "thorough": 100000}, "shards": {"quick": 2, "thorough": 16}},
         },
     },
     "C17": {
@@ -190,7 +190,7 @@ PROPS = {
         "assumptions": HIST_ASSUME,
         "parts": {
             "enum": {"bin": "verifh", "run": "TestC07Enum", "kind": "plain", "shards": {"quick": 8, "thorough": 16}},
-            "hist": {"bin": "verifh", "run": "TestC07Hist", "checks": {"quick": 300, "thorough": 60000}, "shards": {"quick": 2, "thorough": 16}},
+            "hist": {"bin": "verifh", "run": "TestC07Hist", "checks": {"quick": 300, "thorough": 400000}, "shards": {"quick": 2, "thorough": 16}},
         },
     },
     "C06": {
@@ -200,8 +200,8 @@ PROPS = {
         "technique": "exhaustive crash-point injection at driver-call boundaries over rapid-generated histories (child processes), plus randomized kill instants",
         "assumptions": HIST_ASSUME + ["the OS keeps written pages of a killed process (no power loss)"],
         "parts": {
-            "points": {"bin": "verifh", "run": "TestC06Points", "checks": {"quick": 8, "thorough": 320}, "shards": {"quick": 1, "thorough": 8}, "shrinktime": "60s"},
-            "random": {"bin": "verifh", "run": "TestC06Random", "checks": {"quick": 20, "thorough": 2400}, "shards": {"quick": 1, "thorough": 8}, "shrinktime": "20s"},
+            "points": {"bin": "verifh", "run": "TestC06Points", "checks": {"quick": 8, "thorough": 1600}, "shards": {"quick": 1, "thorough": 16}, "shrinktime": "60s"},
+            "random": {"bin": "verifh", "run": "TestC06Random", "checks": {"quick": 20, "thorough": 9600}, "shards": {"quick": 1, "thorough": 16}, "shrinktime": "20s"},
         },
     },
     "C05": {
@@ -213,7 +213,7 @@ PROPS = {
         "parts": {
             "two": {"bin": "verifh", "run": "TestC05Two", "kind": "plain", "shards": {"quick": 8, "thorough": 12}},
             "three": {"bin": "verifh", "run": "TestC05Three", "kind": "plain", "shards": {"quick": 14, "thorough": 14}, "tiers": ["thorough"]},
-            "sampled": {"bin": "verifh", "run": "TestC05Sampled", "checks": {"quick": 2000, "thorough": 60000}, "shards": {"quick": 4, "thorough": 16}},
+            "sampled": {"bin": "verifh", "run": "TestC05Sampled", "checks": {"quick": 2000, "thorough": 320000}, "shards": {"quick": 4, "thorough": 16}},
             "stress": {"bin": "verifh", "run": "TestC05Stress", "kind": "plain", "race": True, "tiers": ["thorough"]},
         },
     },
@@ -225,7 +225,7 @@ PROPS = {
         "assumptions": HIST_ASSUME + ["loopback TCP is available in the sandbox"],
         "parts": {
             "fixed": {"bin": "omni", "run": "TestC14Fixed", "kind": "plain"},
-            "main": {"bin": "omni", "run": "TestC14", "checks": {"quick": 5, "thorough": 160}, "shards": {"quick": 1, "thorough": 16}, "shrinktime": "60s"},
+            "main": {"bin": "omni", "run": "TestC14", "checks": {"quick": 5, "thorough": 800}, "shards": {"quick": 1, "thorough": 16}, "shrinktime": "60s"},
         },
     },
     "C19": {
@@ -235,13 +235,13 @@ PROPS = {
         "technique": "fuzzing (native go coverage-guided, thorough) + property-based structured mutation (rapid) with semantic oracles; hostile-server scripts under a process watchdog",
         "assumptions": HIST_ASSUME[:1],
         "parts": {
-            "endpoint": {"bin": "bastion", "run": "TestC19Endpoint", "checks": {"quick": 3000, "thorough": 200000}, "shards": {"quick": 4, "thorough": 16}},
-            "feeders": {"bin": "verifh", "run": "TestC19Feeders", "checks": {"quick": 3, "thorough": 160}, "shards": {"quick": 1, "thorough": 8}, "shrinktime": "60s"},
+            "endpoint": {"bin": "bastion", "run": "TestC19Endpoint", "checks": {"quick": 3000, "thorough": 1000000}, "shards": {"quick": 4, "thorough": 16}},
+            "feeders": {"bin": "verifh", "run": "TestC19Feeders", "checks": {"quick": 3, "thorough": 640}, "shards": {"quick": 1, "thorough": 16}, "shrinktime": "60s"},
             "sizes": {"bin": "verifh", "run": "TestC19Sizes", "kind": "plain", "shards": {"quick": 1, "thorough": 2}},
             "known": {"bin": "verifh", "run": "TestC19Known", "kind": "plain"},
-            "fuzz-handler": {"bin": "bastion", "kind": "fuzz", "fuzz": "FuzzC19Handler", "run": "-", "fuzztime": {"thorough": 120}, "tiers": ["thorough"]},
-            "fuzz-parsebody": {"bin": "bastion", "kind": "fuzz", "fuzz": "FuzzC19ParseBody", "run": "-", "fuzztime": {"thorough": 60}, "tiers": ["thorough"]},
-            "fuzz-proof": {"bin": "bastion", "kind": "fuzz", "fuzz": "FuzzC19Proof", "run": "-", "fuzztime": {"thorough": 45}, "tiers": ["thorough"]},
+            "fuzz-handler": {"bin": "bastion", "kind": "fuzz", "fuzz": "FuzzC19Handler", "run": "-", "fuzztime": {"thorough": 300}, "workers": 16, "tiers": ["thorough"]},
+            "fuzz-parsebody": {"bin": "bastion", "kind": "fuzz", "fuzz": "FuzzC19ParseBody", "run": "-", "fuzztime": {"thorough": 150}, "workers": 16, "tiers": ["thorough"]},
+            "fuzz-proof": {"bin": "bastion", "kind": "fuzz", "fuzz": "FuzzC19Proof", "run": "-", "fuzztime": {"thorough": 120}, "workers": 16, "tiers": ["thorough"]},
         },
     },
 }
